@@ -1,0 +1,17 @@
+//go:build verif
+
+// Contracts for the verification machinery in /verif (comment-only, built only with -tags verif).
+
+package k8salloc
+
+// The ports of a Service as the allocator sees them. A LoadBalancer Service has at least one port and pairwise
+// distinct (protocol, port) pairs (API-server validation): assumed, this is the PortsOK precondition of the allocator.
+//@ func Ports
+//@   trusted
+//@   ensures allocator.PortsOK(result)
+//@   ensures result == nil || fresh(result)
+//@   modifies fresh []allocator.Port
+//@ func BackendKey
+//@   trusted
+//@   pure
+//@   modifies nothing
